@@ -538,6 +538,11 @@ func (conn *obfs4Conn) Write(b []byte) (int, error) {
 				// window and will sample the length distribution every time a
 				// write is scheduled.
 				targetLen := conn.lenDist.Sample()
+				if targetLen == 0 {
+					// The length table can contain 0, which is not a
+					// meaningful write length, resample.
+					continue
+				}
 				if frameBuf.Len() < targetLen {
 					// There's not enough data buffered for the target write,
 					// so padding must be inserted.
